@@ -23,6 +23,14 @@ CHECKS = {
         text="The query text and operationName captured at the transport for every generated method are parsed, validated against the harness-built schema with "
              "all specified rules and compared node by node (names, aliases, argument value ASTs, directives, variable definitions, fragment closure) with what the user wrote.",
         note=GEN_NOTE, design="4/C02"),
+    "C03": dict(
+        category="exploration",
+        technique="runtime monitoring: variables JSON captured at the transport compared with the abstract argument value; graphql-core coercion as acceptance oracle; resolver-received arguments compared with a reference execution of the authored operation",
+        text="For every generated operation with variables, 5-10 argument scripts (minimal, everything supplied, random with explicit None/omitted/unset nested fields; input "
+             "models built by alias and by Python field name) are passed to the real method. The parameter for each variable is learned by a probe call. The captured "
+             "payload must equal the abstract value exactly (omitted absent, None as null), be accepted by spec coercion, and deliver the same resolver arguments as "
+             "the authored operation executed directly; omitting a required argument must raise TypeError before any request.",
+        note=GEN_NOTE, design="4/C03"),
     "C04": dict(
         category="exploration",
         technique="runtime monitoring: real CLI run per case in a fresh fork, outcome classifier (success / documented refusal / other), import of every emitted module, pydantic completeness, __all__ and reported-files comparison",
@@ -36,6 +44,13 @@ CHECKS = {
         text="Every conformant response from the reference server is corrupted at one position in each of the ways the statement lists and validated by the real generated model; "
              "the evaluated annotation of every reached result field is compared with an independent image of its GraphQL type.",
         note=GEN_NOTE, design="4/C05"),
+    "C06": dict(
+        category="exploration",
+        technique="runtime monitoring: generated input models exercised with values confirmed by graphql-core coerce_input_value; required-field removal; default read-back vs GraphQLInputField.default_value; resolver-observed defaults via carrier queries",
+        text="For every input class of seeded schemas: values accepted by the schema's own coercion are built by GraphQL names and by Python names and dumped back; each "
+             "required field is removed once (must raise ValidationError); every schema default is read back from an instance created without the field and observed "
+             "at the reference resolver through a carrier query.",
+        note=GEN_NOTE, design="4/C06"),
     "C11": dict(
         category="exploration",
         technique="runtime monitoring: transport-boundary capture + reference multipart/JSON oracle; schedule stress (asyncio.gather with seeded awaits, 8 threads at 1us switch interval, sys.monitoring LINE yield injection) with per-call unique ids",
